@@ -198,17 +198,39 @@ def _run_corpus(mod, shard, rec):
             rec.fail(sig, "[regression corpus %s] %s" % (f, msg), case)
 
 
+CHUNK = int(os.environ.get("VERIF_CHUNK", "1500"))
+
+
+def _split(shards):
+    """Hypothesis shards larger than CHUNK cases are cut into sub-shards (own seed each, via the
+    'sub' key): one process then never builds more than a few thousand spyne applications --
+    spyne's module-level memo tables keep every generated class alive, and a worker that has
+    built tens of thousands of them gets several times slower"""
+    out = []
+    for s in shards:
+        n = s.get("n")
+        if s.get("kind", "hyp") == "hyp" and isinstance(n, int) and n > CHUNK:
+            k = -(-n // CHUNK)
+            per = -(-n // k)
+            out.extend(dict(s, n=per, sub=j) for j in range(k))
+        else:
+            out.append(s)
+    return out
+
+
 def run_property(prop, tier, seed, shrink=True):
     t0 = time.time()
     env.assert_tree()
     mod = _load(prop)
-    shards = corpus_shards(prop) + mod.shards(tier)
+    shards = corpus_shards(prop) + _split(mod.shards(tier))
     scale = float(os.environ.get("VERIF_SCALE", "1"))      # development aid only
     if scale != 1:
         shards = [dict(s, n=max(1, int(s["n"] * scale))) if "n" in s else s for s in shards]
     ctx = mp.get_context("fork")
     nproc = min(NPROC, max(1, len(shards)))
     maxtasks = getattr(mod, "MAXTASKSPERCHILD", None)
+    if len(shards) > 64:
+        maxtasks = 2 if maxtasks is None else min(maxtasks, 2)
     results = []
     with ctx.Pool(nproc, maxtasksperchild=maxtasks) as pool:
         for r in pool.imap_unordered(_run_one, [(prop, s, seed, tier, None) for s in shards]):
